@@ -49,8 +49,21 @@ THEOREMS = [
     "Qentem.Props.C11P.parsesExactly17_partial",
     "Qentem.Props.C11P.roundtrip17_of_formatter",
     "Qentem.Props.C11P.parse_close17",
+    "Qentem.Props.C09.real_within_one_ulp_dotzero_end",
+    "Qentem.Props.C09.real_within_one_ulp_dotzero_exp",
+    "Qentem.Props.C09.zero_dot_zeros_end",
+    "Qentem.Props.C09.zero_dot_zeros_exp",
+    "Qentem.Props.C09.zero_exp",
+    "Qentem.Props.C09.real_within_one_ulp_small_end",
+    "Qentem.Props.C09.real_within_one_ulp_small_exp",
+    "Qentem.Props.C09.real_within_one_ulp_int_exp",
+    "Qentem.Props.C09.real_within_one_ulp_small_long_end",
+    "Qentem.Props.C09.real_within_one_ulp_frac_long_end",
+    "Qentem.Props.C09.real_within_one_ulp_small_long_exp",
+    "Qentem.Props.C09.real_within_one_ulp_frac_long_exp",
+    "Qentem.Props.C09.real_within_one_ulp_long_int",
 ]
-OPEN = ["Qentem.Props.C09.real_within_one_ulp (proved for every mantissa on: integer mantissa <= 19 digits with exponent of either sign; d1.ddd[e+-k] numerals (<= 18 digits, fraction not the single digit 0); 0.000ddd (<= 8 zeros, <= 17 digits); every %.17g/%.9g-shaped text (parse_close17); the negative-exponent pipeline itself for every mantissa and x < 344 (negexp_one_ulp_every_mantissa); open for .ddd, '1.0'-style fractions, more than 8 leading fraction zeros, mantissas beyond the 19-unit window; searched by the exact-Rat oracle on the C++ results)",
+OPEN = ["Qentem.Props.C09.real_within_one_ulp (proved, every mantissa value, exponents of ANY number of digits (nine or more significant ones are rejected as out of range), for every numeral whose significant digits fit the 19-unit scan window: integer mantissa <= 19 digits [e+-k]; d1.ddd[e+-k] (<= 18 digits incl. the 'ddd.0' single-zero fraction); 0.000ddd[e+-k] with any number of leading zeros (< 10^8 - 1000 with an exponent) and <= 18 significant digits; zero-valued numerals 0.000[e+-k], 0e+-k; every %.17g/%.9g-shaped text (parse_close17); AND, beyond the window, mantissas with any number of further FRACTION digits when the net decimal exponent is negative: 0.000ddd... with 19+ significant digits and ddd.ddd... with the dot inside the window and 18 digits in it (C09Long: within one ulp of the correctly rounded EXACT value of the whole numeral; truncation slack 10^-17 carried through the negative path). and plain integers of 20 or more digits without dot or exponent (real_within_one_ulp_long_int: 20th-digit rule, ignored digits counted into the exponent, positive path with an integer exact value). OPEN: the remaining ways a mantissa can overflow the window - 20+ integer digits FOLLOWED by a dot and/or an exponent, a 20-digit mantissa taken whole by the 20th-digit rule and followed by a dot or exponent, the dot on the window edge (18 or 19 integer digits then a fraction, 'x.0' look-ahead at the edge), and truncated mantissas with a non-negative net exponent (needs a rational version of the positive-path rounding lemma); texts of 10^8 units or more are outside the documented range of the exponent arithmetic; searched by the exact-Rat oracle on the C++ results)",
         "Qentem.Props.C09.overflow_reported (proved inside the class theorems: NotANumber only when the value really exceeds every finite double, never a finite pattern above max; open outside the class)"]
 
 D0, D9, DOT, LE, UE, PLUS, MINUS = 48, 57, 46, 101, 69, 43, 45
@@ -295,7 +308,7 @@ def embed(text, rng, mode):
 
 def run(ctx):
     ctx.gen_constants(["StrToNum"])
-    ctx.prove(["Qentem.Props.C09", "Qentem.Props.C11Parser", "Qentem.Props.C11Float"], THEOREMS, open_statements=OPEN)
+    ctx.prove(["Qentem.Props.C09", "Qentem.Props.C09More", "Qentem.Props.C09Long", "Qentem.Props.C11Parser", "Qentem.Props.C11Float"], THEOREMS, open_statements=OPEN)
     drv = ctx.build_driver()
     exe = ctx.build_harness("strtonum_harness.cpp")
     if not (drv and exe):
